@@ -178,7 +178,6 @@ func invDepth(p *Parser) bool { return 0 <= p.depth && p.depth <= 64 }
 //@ requires invParser(p) && invDepth(p)
 //@ modifies p.data, p.pos, p.depth
 //@ ensures [inv]   invParser(p) && p.depth == old(p.depth)
-//@ ensures [moves] result1 == nil ==> p.pos > old(p.pos)
 
 //@ func (*Parser).parseList
 //@ requires invParser(p) && invDepth(p) && 0 <= size && size <= 2147483647
